@@ -4,6 +4,8 @@
 //!        {"kind":"gen","sf_bits":u64,"seed":n,"parquet":bool} → {"counts":{table: rows}, "deterministic":{"twice","threads","parquet"},
 //!              "cols":{key columns as integer arrays}} — generated in memory twice, on 8 threads concurrently, and (parquet=true) by a
 //!              child process through generate_to_parquet + read-back; all compared byte for byte (Arrow IPC encoding of every table).
+//!              History independence: in ONE process (sf,seedA), (sf,seedB), (sf,seedA) again, and threads interleaving both seeds; each must equal
+//!              what a FRESH child process generates for that (sf, seed) alone; seedA and seedB must differ in every RNG-dependent table.
 use crate::common::*;
 use crate::rng::Rng;
 use arrow::array::{Array, Int32Array, Int64Array};
@@ -67,11 +69,38 @@ pub fn run_case(c: &Value) -> Value {
         let sf = f64::from_bits(c["sf_bits"].as_u64().unwrap_or(0));
         if c["kind"].as_str() == Some("counts") { return json!({"counts": counts_json(sf)}); }
         let seed = c["seed"].as_u64().unwrap_or(0);
+        let seed_b = c["seed_b"].as_u64().unwrap_or((seed ^ 0x5bd1_e995) + 1);
+        let scratch = std::path::PathBuf::from(std::env::var("IQE_SCRATCH").unwrap_or_else(|_| "/verif/harness/scratch".into()));
+        // what a fresh process generates for (sf, s) alone: the reference for history independence
+        let fresh = |s: u64| -> Option<Vec<u8>> {
+            let out = scratch.join(format!("c39-fresh-{}-{}.ipc", std::process::id(), s));
+            let st = std::process::Command::new(std::env::current_exe().ok()?)
+                .args(["C39", "--opt", "child=bytes", "--opt", &format!("out={}", out.display()), "--opt", &format!("sf_bits={}", sf.to_bits()), "--seed", &s.to_string()])
+                .stdout(std::process::Stdio::null()).stderr(std::process::Stdio::null()).status().ok()?;
+            let b = if st.success() { std::fs::read(&out).ok() } else { None };
+            let _ = std::fs::remove_file(&out);
+            b
+        };
         let first = generate(sf, seed);
         let bytes = encode(&first);
-        let twice = encode(&generate(sf, seed)) == bytes;
-        let handles: Vec<_> = (0..8).map(|_| std::thread::spawn(move || encode(&generate(sf, seed)))).collect();
-        let threads = handles.into_iter().all(|h| h.join().map(|b| b == bytes).unwrap_or(false));
+        let second = generate(sf, seed_b);
+        let bytes_b = encode(&second);
+        let twice = encode(&generate(sf, seed)) == bytes;           // (sf, A) again after (sf, B)
+        let (fresh_a, fresh_b) = (fresh(seed), fresh(seed_b));
+        let hist: Value = match (&fresh_a, &fresh_b) {
+            (Some(fa), Some(fb)) => json!(*fa == bytes && *fb == bytes_b),
+            _ => Value::Null,                                        // child could not run: nothing to compare
+        };
+        // threads interleave the two seeds; each must reproduce its own seed's data
+        let (ref_a, ref_b) = (fresh_a.clone().unwrap_or_else(|| bytes.clone()), fresh_b.clone().unwrap_or_else(|| bytes_b.clone()));
+        let handles: Vec<_> = (0..8).map(|t| { let (s, r) = if t % 2 == 0 { (seed, ref_a.clone()) } else { (seed_b, ref_b.clone()) };
+            std::thread::spawn(move || encode(&generate(sf, s)) == r) }).collect();
+        let threads = handles.into_iter().all(|h| h.join().unwrap_or(false));
+        // different seeds must give different data in every table that has RNG-dependent columns (>= 100 rows)
+        let same_ab: Vec<String> = if seed == seed_b { vec![] } else {
+            first.iter().zip(second.iter()).filter(|((t, a), (_, b))| t != "nation" && t != "region"
+                && a.iter().map(|x| x.num_rows()).sum::<usize>() >= 100 && encode(&[(t.clone(), a.clone())]) == encode(&[(t.clone(), b.clone())]))
+                .map(|((t, _), _)| t.clone()).collect() };
         let mut pq_diff: Vec<String> = vec![];
         let parquet = if c["parquet"].as_bool() == Some(true) {
             let dir = std::path::PathBuf::from(std::env::var("IQE_SCRATCH").unwrap_or_else(|_| "/verif/harness/scratch".into()))
@@ -115,7 +144,7 @@ pub fn run_case(c: &Value) -> Value {
             ("lineitem", "l_suppkey"), ("lineitem", "l_linenumber")];
         let mut cj = Map::new();
         for (t, col) in cols { cj.insert(col.to_string(), int_col(&first, t, col)); }
-        json!({"counts": counts, "declared": counts_json(sf), "deterministic": {"twice": twice, "threads": threads, "parquet": parquet, "parquet_diff": pq_diff}, "cols": cj})
+        json!({"counts": counts, "declared": counts_json(sf), "deterministic": {"twice": twice, "threads": threads, "parquet": parquet, "parquet_diff": pq_diff, "hist": hist, "same_ab": same_ab, "seeds_differ": seed != seed_b}, "cols": cj})
     }))
 }
 
@@ -136,6 +165,11 @@ pub fn main(o: &Opts) {
         let r = TpchGenerator::with_seed(sf, o.seed).generate_to_parquet(&dir);
         std::process::exit(if r.is_ok() { 0 } else { 1 });
     }
+    if o.get("child") == Some("bytes") {
+        let sf = f64::from_bits(o.get("sf_bits").and_then(|s| s.parse().ok()).unwrap_or(0));
+        let ok = std::fs::write(o.get("out").unwrap_or("/verif/harness/scratch/c39-fresh.ipc"), encode(&generate(sf, o.seed))).is_ok();
+        std::process::exit(if ok { 0 } else { 1 });
+    }
     if let Some(p) = &o.replay { for c in replay_cases(p) { let i = run_case(&c); emit(c, i); } return; }
     let mut r = Rng::new(o.seed ^ 0xC39);
     let max_gen_k = o.get_usize("max_gen_k", 400) as u64;   // full generations up to sf = max_gen_k/100000
@@ -143,7 +177,7 @@ pub fn main(o: &Opts) {
     // the whole range [0.001, 0.05] is swept for the row counts (cheap); data is generated for `gens` scale factors
     for n in 0..o.cases {
         let c = if n < gens {
-            json!({"kind":"gen","sf_bits":gen_sf(&mut r, max_gen_k).to_bits(),"seed":r.below(1 << 20),"parquet": n % 4 == 0})
+            { let a = r.below(1 << 20); json!({"kind":"gen","sf_bits":gen_sf(&mut r, max_gen_k).to_bits(),"seed":a,"seed_b":(a + 1 + r.below(1 << 20)) % (1 << 21),"parquet": n % 4 == 0}) }
         } else {
             json!({"kind":"counts","sf_bits":gen_sf(&mut r, 5000).to_bits()})
         };
